@@ -1,82 +1,13 @@
 From Coq Require Import List NArith Bool Arith Lia.
 Import ListNotations.
-From Adeu Require Import Str.
+From Adeu Require Import Str Doc.
 
-Inductive rchild := CT (s : str) | CDelT (s : str) | CTab | CBr | CRef (id : N) | COther (tok : N).
-Definition rpr := option (list (N * N)).
-Record mark := { m_id : N; m_author : N; m_date : N }.
-Inductive wkind := KIns | KDel.
-Inductive node :=
-| NRun (uid : nat) (f : rpr) (kids : list rchild)
-| NWrap (uid : nat) (k : wkind) (m : mark) (cs : list node)
-| NCrs (id : N) | NCre (id : N) | NOther (tok : N).
-
-(* nested induction principle *)
-Section NodeInd.
-  Variable P : node -> Prop.
-  Hypothesis Hrun : forall u f k, P (NRun u f k).
-  Hypothesis Hwrap : forall u k m cs, Forall P cs -> P (NWrap u k m cs).
-  Hypothesis Hcrs : forall i, P (NCrs i).
-  Hypothesis Hcre : forall i, P (NCre i).
-  Hypothesis Hoth : forall t, P (NOther t).
-  Fixpoint node_ind' (n : node) : P n :=
-    match n with
-    | NRun u f k => Hrun u f k
-    | NWrap u k m cs => Hwrap u k m cs ((fix go (l : list node) : Forall P l :=
-                          match l with [] => Forall_nil _ | x :: l' => Forall_cons _ (node_ind' x) (go l') end) cs)
-    | NCrs i => Hcrs i | NCre i => Hcre i | NOther t => Hoth t
-    end.
-End NodeInd.
-
-(* atoms: status = stack of enclosing marks (innermost first) *)
-Inductive atom :=
-| ACh (c : char) (f : rpr) (st : list (wkind * mark))
-| ASp (tok : N) (f : rpr) (st : list (wkind * mark))
-| ACrs (id : N) | ACre (id : N)
-| ACref (id : N) (f : rpr) (st : list (wkind * mark)).      (* w:commentReference inside a run *)
-Definition kid_atoms (f : rpr) (st : list (wkind * mark)) (k : rchild) : list atom :=
-  match k with
-  | CT s | CDelT s => map (fun c => ACh c f st) s
-  | CTab => [ACh 9%N f st] | CBr => [ACh 10%N f st]
-  | CRef i => [ACref i f st] | COther t => [ASp t f st]
-  end.
-Fixpoint atoms (st : list (wkind * mark)) (n : node) : list atom :=
-  match n with
-  | NRun _ f kids => flat_map (kid_atoms f st) kids
-  | NWrap _ k m cs => flat_map (atoms ((k, m) :: st)) cs
-  | NCrs i => [ACrs i] | NCre i => [ACre i]
-  | NOther t => [ASp t None st]
-  end.
-Definition atoms_l st (ns : list node) := flat_map (atoms st) ns.
-
-(* uid-addressed update: f n = Some ns replaces n by ns (no recursion into ns), None recurses *)
-Fixpoint upd (f : node -> option (list node)) (n : node) : list node :=
-  match f n with
-  | Some ns => ns
-  | None => match n with
-            | NWrap u k m cs => [NWrap u k m (flat_map (upd f) cs)]
-            | _ => [n]
-            end
-  end.
-Definition upd_l f (ns : list node) := flat_map (upd f) ns.
-
-(* reject the session: S = marks created by the session (and C = its comment ids) *)
 Section Rej.
   Variable S : mark -> bool.
-  Variable C : N -> bool.
-  Definition strip (st : list (wkind * mark)) := filter (fun km => negb (S (snd km))) st.
-  Definition dead (st : list (wkind * mark)) := existsb (fun km => match fst km with KIns => S (snd km) | KDel => false end) st.
-  Definition rej_atom (a : atom) : list atom :=
-    match a with
-    | ACh c f st => if dead st then [] else [ACh c f (strip st)]
-    | ASp t f st => if dead st then [] else [ASp t f (strip st)]
-    | ACrs i => if C i then [] else [a]
-    | ACre i => if C i then [] else [a]
-    | ACref i f st => if C i || dead st then [] else [ACref i f (strip st)]
-    end.
-  Definition rej (l : list atom) := flat_map rej_atom l.
+  Variable C : str -> bool.
+  Notation rej := (rej S C).
   Lemma rej_app a b : rej (a ++ b) = rej a ++ rej b.
-  Proof. unfold rej. apply flat_map_app. Qed.
+  Proof. unfold Doc.rej. apply flat_map_app. Qed.
 
   (* THE generic lemma: a local replacement that is rej-neutral in every context is rej-neutral globally *)
   Lemma upd_rej (f : node -> option (list node)) :
@@ -98,40 +29,26 @@ Section Rej.
     rewrite flat_map_app, !rej_app, IH. f_equal. now apply upd_rej. Qed.
 End Rej.
 
-(* ---- three engine primitives, each discharged by the local condition of upd_rej ---- *)
-Definition is_run (uid : nat) (n : node) : bool := match n with NRun u _ _ => Nat.eqb u uid | _ => false end.
-Definition has_uid (uid : nat) (n : node) : bool :=
-  match n with NRun u _ _ | NWrap u _ _ _ => Nat.eqb u uid | _ => false end.
-Definition to_del (k : rchild) : rchild := match k with CT s => CDelT s | _ => k end.
-Definition wrap_del (uid du : nat) (m : mark) (n : node) : option (list node) :=
-  match n with
-  | NRun u f kids => if Nat.eqb u uid then Some [NWrap du KDel m [NRun u f (map to_del kids)]] else None
-  | _ => None end.
-Definition insert_after (uid : nat) (new : node) (n : node) : option (list node) :=
-  if has_uid uid n then Some [n; new] else None.
-Definition split_plain (uid nu k : nat) (n : node) : option (list node) :=
-  match n with
-  | NRun u f [CT s] => if Nat.eqb u uid then Some [NRun u f [CT (firstn k s)]; NRun nu f [CT (skipn k s)]] else None
-  | _ => None end.
-
 Section Prims.
   Variable S : mark -> bool.
-  Variable C : N -> bool.
+  Variable C : str -> bool.
   Notation rej := (rej S C).
 
   Lemma kid_to_del f st k : kid_atoms f st (to_del k) = kid_atoms f st k.
   Proof. destruct k; reflexivity. Qed.
   Lemma rej_kid_del f st m k : S m = true ->
     rej (kid_atoms f ((KDel, m) :: st) k) = rej (kid_atoms f st k).
-  Proof. intros Hm. assert (E : forall a b, rej_atom S C (match a with ACh c f _ => ACh c f ((KDel,m)::b) | ASp t f _ => ASp t f ((KDel,m)::b) | ACref i f _ => ACref i f ((KDel,m)::b) | x => x end)
-                                     = rej_atom S C (match a with ACh c f _ => ACh c f b | ASp t f _ => ASp t f b | ACref i f _ => ACref i f b | x => x end)).
+  Proof. intros Hm. assert (E : forall a b, Doc.rej_atom S C (match a with ACh c f _ => ACh c f ((KDel,m)::b) | ASp t f _ => ASp t f ((KDel,m)::b) | ACref i f _ => ACref i f ((KDel,m)::b) | x => x end)
+                                     = Doc.rej_atom S C (match a with ACh c f _ => ACh c f b | ASp t f _ => ASp t f b | ACref i f _ => ACref i f b | x => x end)).
     { intros [c f1 s1|t f1 s1|i|i|i f1 s1] b; simpl; auto; unfold dead, strip; simpl; rewrite Hm; reflexivity. }
-    destruct k; simpl; unfold Tree.rej; simpl; try (apply (E (ACh 0%N f []) st)); try (apply (E (ASp 0%N f []) st));
-    try (induction s as [|c s IH]; simpl; auto; rewrite IH; f_equal; apply (E (ACh c f []) st)).
+    destruct k as [s|s| | | |i|t]; simpl; unfold Doc.rej; simpl.
+    - induction s as [|c s IH]; simpl; auto. rewrite IH. f_equal. apply (E (ACh c f []) st).
+    - induction s as [|c s IH]; simpl; auto. rewrite IH. f_equal. apply (E (ACh c f []) st).
     - rewrite !app_nil_r. apply (E (ACh 9%N f []) st).
     - rewrite !app_nil_r. apply (E (ACh 10%N f []) st).
-    - rewrite !app_nil_r. apply (E (ACref id f []) st).
-    - rewrite !app_nil_r. apply (E (ASp tok f []) st).
+    - rewrite !app_nil_r. apply (E (ACh 10%N f []) st).
+    - rewrite !app_nil_r. apply (E (ACref i f []) st).
+    - rewrite !app_nil_r. apply (E (ASp t f []) st).
   Qed.
 
   Theorem wrap_del_rej uid du m ns st : S m = true ->
